@@ -206,7 +206,43 @@ let parse_result (fields : string list) : result option =
   | ["timeout"] -> Some RTimeout | ["nack"] -> Some RNack | ["error"] -> Some RError | ["other"] -> Some ROther
   | _ -> None
 
+let fetch_stats = Hashtbl.create 7
+let bump k = Hashtbl.replace fetch_stats k (1 + (try Hashtbl.find fetch_stats k with Not_found -> 0))
+
+(* the theorem consume_any_order applied to the implementation: when the decidable hypotheses hold for the event list
+   of the case (run_ok, and for the strong conclusion run_clean and quiescence), its conclusion is evaluated on the
+   callbacks the IMPLEMENTATION made *)
+let fetch_case_oracle (objs : (string * n list list) list) (evs : cev list) (impl_log : (int * cbrec) list) (diverged : bool) =
+  let (_, _), cfin0 = run_checkb (fun _ -> []) cl_init evs in
+  let fetch_of sid = string_of_name (List.nth cfin0.c_streams sid).s_fetch in
+  let w (sid : nat) : n list list =
+    let i = int_of_nat sid in
+    if i < List.length cfin0.c_streams then (try List.assoc (fetch_of i) objs with Not_found -> []) else [] in
+  let ((ok, clean), cfin) = run_checkb w cl_init evs in
+  let wf = List.for_all (fun (_, segs) -> wf_objectb segs) objs in
+  if ok && wf then begin
+    bump "theorem-applies";
+    let quiet = quiescentb cfin in
+    if quiet then bump "quiescent"; if clean then bump "clean";
+    if quiet && clean then bump "quiescent+clean";
+    List.iteri (fun sid (_ : stream) ->
+      let log = List.map snd (List.filter (fun (s, _) -> s = sid) impl_log) in
+      let segs = w (nat_of_int sid) in
+      let content = List.concat segs in
+      let delivered = log_chunks log in
+      let rec prefixes acc = function [] -> [acc] | s :: r -> acc :: prefixes (acc @ s) r in
+      let detail = Printf.sprintf "stream %d: %d callbacks, %d completions, %d bytes handed out, object has %d bytes in %d segments"
+          sid (List.length log) (int_of_nat (completions log)) (List.length delivered) (List.length content) (List.length segs) in
+      if int_of_nat (completions log) > 1 then oracle "fetch:spec:completed-more-than-once" detail
+      else if not (List.mem delivered (prefixes [] segs)) then oracle "fetch:spec:bytes-not-a-prefix-of-the-object" detail
+      else if quiet && not diverged then begin
+        if not (consume_log_ok content true log) then oracle "fetch:spec:no-single-final-completion-at-quiescence" detail
+        else if clean && not (consume_log_ok content false log) then oracle "fetch:spec:error-or-wrong-content-on-clean-run" detail
+      end) cfin.c_streams
+  end else bump (if wf then "dishonest-or-malformed-replies" else "ill-formed-object")
+
 let run_fetch () =
+  let objs = ref [] and evs = ref [] and impl_log = ref [] and any_div = ref false in
   let c = ref cl_init and evno = ref 0 and impl_cbs = ref [] and last_ev = ref "" and stop = ref false in
   let logs_len = ref [] in    (* per stream: number of callback records already printed *)
   let new_cb_lines () =
@@ -219,12 +255,30 @@ let run_fetch () =
         lens := List.length l :: !lens) !c.c_streams;
     logs_len := List.rev !lens;
     List.rev !lines in
-  let apply ev = c := step !c ev in
+  let apply ev = evs := ev :: !evs; c := step !c ev in
   (try
     while true do
       let line = input_line stdin in
       match String.split_on_char ' ' line with
-      | ["FETCH"] -> incr ncases; c := cl_init; evno := 0; impl_cbs := []; logs_len := []; stop := false
+      | ["FETCH"] -> incr ncases; c := cl_init; evno := 0; impl_cbs := []; logs_len := []; stop := false;
+          objs := []; evs := []; impl_log := []; any_div := false
+      | ["OBJ"; nm; segs] -> objs := (nm, wire_of_string segs) :: !objs
+      | "CB" :: sid :: complete :: err :: progress :: max :: [chunk] when !stop ->
+          impl_log := (int_of_string sid, { cb_complete = (complete = "1"); cb_err = (if err = "-" then None else Some (n_of_dec err));
+                   cb_progress = nat_of_int (int_of_string progress);
+                   cb_max = (if max = "-" then None else Some (nat_of_int (int_of_string max)));
+                   cb_chunk = (if chunk = "none" then None else Some (bytes_of_field chunk)) }) :: !impl_log
+      | "EV" :: rest when !stop ->
+          (* after a divergence the model is no longer stepped, but the event list is still collected for the oracle *)
+          any_div := true;
+          (match rest with
+           | ["consume"; nm; pol] -> evs := EvConsume (name_of_string nm, (if pol = "every" then PolEvery else PolAtEnd)) :: !evs
+           | ["run"; "out"] -> evs := EvRunOut :: !evs
+           | ["run"; "segin"] -> evs := EvRunSegIn :: !evs
+           | ["run"; "fetch"] -> evs := EvRunFetch :: !evs
+           | ["run"; "check"] -> evs := EvRunCheck :: !evs
+           | "result" :: xid :: r -> (match parse_result r with Some res -> evs := EvResult (nat_of_int (int_of_string xid), res) :: !evs | None -> ())
+           | _ -> ())
       | _ when !stop && line <> "END" -> ()
       | "EV" :: rest ->
           incr evno; last_ev := line; impl_cbs := [];
@@ -239,7 +293,12 @@ let run_fetch () =
                 | Some res -> apply (EvResult (nat_of_int (int_of_string xid), res))
                 | None -> print_endline ("BADLINE " ^ short line))
            | _ -> print_endline ("BADLINE " ^ short line))
-      | "CB" :: _ -> impl_cbs := line :: !impl_cbs
+      | "CB" :: sid :: complete :: err :: progress :: max :: [chunk] ->
+          impl_cbs := line :: !impl_cbs;
+          impl_log := (int_of_string sid, { cb_complete = (complete = "1"); cb_err = (if err = "-" then None else Some (n_of_dec err));
+                   cb_progress = nat_of_int (int_of_string progress);
+                   cb_max = (if max = "-" then None else Some (nat_of_int (int_of_string max)));
+                   cb_chunk = (if chunk = "none" then None else Some (bytes_of_field chunk)) }) :: !impl_log
       | "ST" :: _ ->
           let mcbs = List.sort compare (new_cb_lines ()) and icbs = List.sort compare !impl_cbs in
           if mcbs <> icbs then begin
@@ -254,7 +313,7 @@ let run_fetch () =
       | "HANG" :: what ->
           oracle ("fetch:hang:" ^ String.concat "_" what)
             (Printf.sprintf "event %d (%s): the client's goroutine never returned from %s" !evno (short !last_ev) (String.concat " " what))
-      | ["END"] -> ()
+      | ["END"] -> fetch_case_oracle !objs (List.rev !evs) (List.rev !impl_log) !any_div
       | [""] | [] -> ()
       | _ -> print_endline ("BADLINE " ^ short line)
     done
@@ -329,4 +388,5 @@ let () =
    | "fetch" -> run_fetch ()
    | "e2e" -> run_e2e ()
    | _ -> print_endline ("BADLINE unknown mode " ^ mode));
+  Hashtbl.iter (fun k v -> Printf.printf "STAT %s %d\n" k v) fetch_stats;
   Printf.printf "DONE %d\n" !ncases
